@@ -106,10 +106,16 @@ def run(ctx):
                                "max_bk": maxbk, "max_sigs": maxsigs}
             ctx.log("N=%d: %d rows on SyncBlockHeader+VerifyHeader, %d accepted, %d against the property (TLC candidates %d)" % (N, len(obs), acc, uns, c))
             ctx.samples.append({"peers": N, "header": sc.hdr_str(H[len(H) // 2]), "model_accepts": H[len(H) // 2]["acc"], "property_allows": H[len(H) // 2]["ok"]})
+    # stateful part: which stored peer set governs a header when key headers arrive in any order (spec/SigEpoch.tla)
+    ep = sc.epoch_phase(ctx, binary, "sync", "SigEpoch_C33.cfg", "TestVerifSigEpochSync", {"n": 4, "keys": 5}) if binary else None
+    if ep:
+        nexec += ep[0]
+        per["epoch histories"] = {"histories": ep[0], "steps": ep[1], "unsound_accepts": ep[2]}
     ctx.finish("model_checking", {
         "states": ctx.stats["states"], "transitions": ctx.stats["transitions"],
         "traces_validated_against_impl": nexec, "accepted_by_real_code": nacc, "unsound_accepts_on_real_code": nunsound,
         "tlc_candidates_against_property": cand, "per_configuration": per, "exhaustive": True,
     }, ["ideal cryptography", "peer set stored through the contract's own SyncGenesisHeader path over an in-memory CacheDB; every header is offered to SyncBlockHeader on a throw-away cache and to VerifyHeader directly",
         "headers enumerated up to renaming of peers (listed in order of first occurrence); signatures by listed peers, one unlisted peer, an outsider, garbage, stale",
+        "stateful part (SigEpoch): all histories of 3 SyncBlockHeader steps at 3 heights in any order, key headers retiring one peer, 5 signer sets",
         "the list-length threshold is probed from the tree and fed to TLC as a constant"])
